@@ -775,7 +775,7 @@ func (ex *Exec) selectNotReady(st *State, s *ast.SelectStmt, k func(*State)) {
 
 // afterSend runs `after call send[k]:` anchored clauses (k-th send statement in source order).
 func (ex *Exec) afterSend(st *State, s ast.Node) {
-	if st.frame.fi != ex.top || st.frame.closure != nil || ex.top.Spec == nil || len(ex.top.Spec.Anchors) == 0 {
+	if st.frame.fi != ex.top || (st.frame.closure != nil && !ex.closureTop) || ex.top.Spec == nil || len(ex.top.Spec.Anchors) == 0 {
 		return
 	}
 	ord := 0
